@@ -5,28 +5,37 @@
    for HEXDIG ("A".."F") and for the "v" of IPvFuture.
    Definitions only; nothing here is generated. *)
 From Coq Require Import NArith List.
-From Sophia.C09 Require Import Model.
+From Sophia.C09 Require Import Regex.
 Import ListNotations.
 Open Scope N_scope.
 
+(* Rules that are a plain choice between characters are written as ONE character class (a list of
+   code point ranges); `++` is the union of classes. *)
+Definition one (c : N) : cclass := [(c, c)].
+
 (* RFC 5234 core rules *)
-Definition ALPHA : rex cclass := Alt (rng 0x41 0x5A) (rng 0x61 0x7A).
-Definition DIGIT : rex cclass := rng 0x30 0x39.
-Definition HEXDIG : rex cclass :=
-  Alt DIGIT (Alt (rng 0x41 0x46) (rng 0x61 0x66)).          (* DIGIT / "A" / ... / "F", either case *)
+Definition ALPHA_c : cclass := [(0x41, 0x5A); (0x61, 0x7A)].                  (* %x41-5A / %x61-7A *)
+Definition DIGIT_c : cclass := [(0x30, 0x39)].                                (* %x30-39 *)
+Definition HEXDIG_c : cclass := DIGIT_c ++ [(0x41, 0x46); (0x61, 0x66)].      (* DIGIT / "A".."F", either case *)
+Definition ALPHA : rex cclass := Lf ALPHA_c.
+Definition DIGIT : rex cclass := Lf DIGIT_c.
+Definition HEXDIG : rex cclass := Lf HEXDIG_c.
 
 Definition c_colon := chr 0x3A.   Definition c_slash := chr 0x2F.   Definition c_qmark := chr 0x3F.
 Definition c_hash := chr 0x23.    Definition c_at := chr 0x40.      Definition c_dot := chr 0x2E.
 Definition c_lbrack := chr 0x5B.  Definition c_rbrack := chr 0x5D.  Definition c_percent := chr 0x25.
 
 (* RFC 3986 *)
-Definition sub_delims : rex cclass :=                         (* "!" "$" "&" "'" "(" ")" "*" "+" "," ";" "=" *)
-  alts [chr 0x21; chr 0x24; chr 0x26; chr 0x27; chr 0x28; chr 0x29; chr 0x2A; chr 0x2B; chr 0x2C; chr 0x3B; chr 0x3D].
-Definition unreserved : rex cclass :=                         (* ALPHA / DIGIT / "-" / "." / "_" / "~" *)
-  alts [ALPHA; DIGIT; chr 0x2D; chr 0x2E; chr 0x5F; chr 0x7E].
+Definition sub_delims_c : cclass :=                           (* "!" "$" "&" "'" "(" ")" "*" "+" "," ";" "=" *)
+  one 0x21 ++ one 0x24 ++ one 0x26 ++ one 0x27 ++ one 0x28 ++ one 0x29 ++ one 0x2A ++ one 0x2B ++ one 0x2C
+  ++ one 0x3B ++ one 0x3D.
+Definition unreserved_c : cclass :=                           (* ALPHA / DIGIT / "-" / "." / "_" / "~" *)
+  ALPHA_c ++ DIGIT_c ++ one 0x2D ++ one 0x2E ++ one 0x5F ++ one 0x7E.
+Definition sub_delims : rex cclass := Lf sub_delims_c.
+Definition unreserved : rex cclass := Lf unreserved_c.
 Definition pct_encoded : rex cclass := cats [c_percent; HEXDIG; HEXDIG].
 Definition scheme : rex cclass :=                             (* ALPHA *( ALPHA / DIGIT / "+" / "-" / "." ) *)
-  Cat ALPHA (Star (alts [ALPHA; DIGIT; chr 0x2B; chr 0x2D; chr 0x2E])).
+  Cat ALPHA (Star (Lf (ALPHA_c ++ DIGIT_c ++ one 0x2B ++ one 0x2D ++ one 0x2E))).
 Definition port : rex cclass := Star DIGIT.
 Definition dec_octet : rex cclass :=
   alts [ DIGIT                                                (* 0-9 *)
@@ -51,19 +60,23 @@ Definition IPv6address : rex cclass :=
        ; cats [ opt (Cat (rep_le 5 h16c) h16);  dcolon;             h16 ]
        ; cats [ opt (Cat (rep_le 6 h16c) h16);  dcolon                  ] ].
 Definition IPvFuture : rex cclass :=                          (* "v" 1*HEXDIG "." 1*( unreserved / sub-delims / ":" ) *)
-  cats [Alt (chr 0x76) (chr 0x56); plus HEXDIG; c_dot; plus (alts [unreserved; sub_delims; c_colon])].
+  cats [Alt (chr 0x76) (chr 0x56); plus HEXDIG; c_dot; plus (Lf (unreserved_c ++ sub_delims_c ++ one 0x3A))].
 Definition IP_literal : rex cclass := cats [c_lbrack; Alt IPv6address IPvFuture; c_rbrack].
 
 (* RFC 3987 *)
-Definition ucschar : rex cclass :=
-  alts [ rng 0xA0 0xD7FF; rng 0xF900 0xFDCF; rng 0xFDF0 0xFFEF
-       ; rng 0x10000 0x1FFFD; rng 0x20000 0x2FFFD; rng 0x30000 0x3FFFD
-       ; rng 0x40000 0x4FFFD; rng 0x50000 0x5FFFD; rng 0x60000 0x6FFFD
-       ; rng 0x70000 0x7FFFD; rng 0x80000 0x8FFFD; rng 0x90000 0x9FFFD
-       ; rng 0xA0000 0xAFFFD; rng 0xB0000 0xBFFFD; rng 0xC0000 0xCFFFD
-       ; rng 0xD0000 0xDFFFD; rng 0xE1000 0xEFFFD ].
-Definition iprivate : rex cclass := alts [rng 0xE000 0xF8FF; rng 0xF0000 0xFFFFD; rng 0x100000 0x10FFFD].
-Definition iunreserved : rex cclass := alts [ALPHA; DIGIT; chr 0x2D; chr 0x2E; chr 0x5F; chr 0x7E; ucschar].
+Definition ucschar_c : cclass :=
+  [ (0xA0, 0xD7FF); (0xF900, 0xFDCF); (0xFDF0, 0xFFEF)
+  ; (0x10000, 0x1FFFD); (0x20000, 0x2FFFD); (0x30000, 0x3FFFD)
+  ; (0x40000, 0x4FFFD); (0x50000, 0x5FFFD); (0x60000, 0x6FFFD)
+  ; (0x70000, 0x7FFFD); (0x80000, 0x8FFFD); (0x90000, 0x9FFFD)
+  ; (0xA0000, 0xAFFFD); (0xB0000, 0xBFFFD); (0xC0000, 0xCFFFD)
+  ; (0xD0000, 0xDFFFD); (0xE1000, 0xEFFFD) ].
+Definition iprivate_c : cclass := [(0xE000, 0xF8FF); (0xF0000, 0xFFFFD); (0x100000, 0x10FFFD)].
+Definition iunreserved_c : cclass :=                          (* ALPHA / DIGIT / "-" / "." / "_" / "~" / ucschar *)
+  ALPHA_c ++ DIGIT_c ++ one 0x2D ++ one 0x2E ++ one 0x5F ++ one 0x7E ++ ucschar_c.
+Definition ucschar : rex cclass := Lf ucschar_c.
+Definition iprivate : rex cclass := Lf iprivate_c.
+Definition iunreserved : rex cclass := Lf iunreserved_c.
 Definition ipchar : rex cclass := alts [iunreserved; pct_encoded; sub_delims; c_colon; c_at].
 Definition isegment : rex cclass := Star ipchar.
 Definition isegment_nz : rex cclass := plus ipchar.
